@@ -829,6 +829,11 @@ def oracle_search(ctx, corr, broken):
     if best is None:
         return None
     case, msg = shrink(best[0], best[1])
+    if case.get("op") == "xfer" and "sscript" not in case:
+        # make the replay self-contained: the scripts the families expanded to
+        ss, rs = scripts_for(case, [make_packet(s) for s in case["packets"]])
+        if len(Script(ss).text()) < 4000 and len(Script(rs).text()) < 4000:
+            case = dict(case, sscript=ss, rscript=rs)
     out = compact(case)
     out["kind"] = "fault" if case.get("expect") == "safe" or case.get("op") in ("reads", "swrites") else "input"
     return out, msg, signature_of(msg)
